@@ -233,6 +233,12 @@ Accepted == IsGen => /\ tv.keys = Keys(tv.gen)
    directory, which is what generating all the C code of a vehicle means: afterwards the directory holds, for every
    entry point that ran, its own file with exactly its own inventory -- whatever the order (an entry point neither
    overwrites nor removes another one's output).  The harness runs every order of SharedOrders. *)
+(* Call histories of one generator in ONE process: the artefact of a call is a function of that call's option combination
+   only (Artefact(g, row) above has no other argument).  sequence_check runs default, every toggle, default again;
+   FirstCalls are the histories that START with a non-default call: << toggle k, default >> for every option k of every
+   generator, each in a fresh interpreter, compared with the history << default >>. *)
+FirstCalls(g) == { << k, "default" >> : k \in Range(Keys(g)) }
+ASSUME \A g \in {"attitude", "rdd2", "rdd2_loglinear", "bezier", "generic"} : FirstCalls(g) # {}
 EntrySets == <<"rdd2", "rdd2_loglinear", "bezier">>
 RotSeq(q, r) == [i \in 1..Len(q) |-> q[((i - 1 + r) % Len(q)) + 1]]
 SharedOrders == IF Tier = "quick" THEN {EntrySets, Reverse(EntrySets)}
